@@ -189,16 +189,16 @@ func lastSexp(s string) string {
 }
 
 type replayGen struct {
-	e       *Engine
-	vc      *VC
-	o       *Obligation
-	fn      *ssa.Function
-	pkg     *types.Package
-	imports map[string]string // path -> name
-	terms   []string
-	mv      modelVals
-	entryH  func(name, sort string) string
-	fail    string
+	e          *Engine
+	vc         *VC
+	o          *Obligation
+	fn         *ssa.Function
+	pkg        *types.Package
+	imports    map[string]string // path -> name
+	terms      []string
+	mv         modelVals
+	entryH     func(name, sort string) string
+	fail       string
 	heapSlices [][3]string // off, len, cap terms of slices reached through pointer parameters
 }
 
